@@ -1,4 +1,5 @@
 import CodeLimit.Lemmas.PipelineMain
+import CodeLimit.Lemmas.PipelineMeas
 import CodeLimit.Lemmas.PipelineEval
 import CodeLimit.Props.C11pat
 import CodeLimit.Props.C01full
@@ -17,29 +18,38 @@ This file states the properties about THAT function.  Every proof is a compositi
 theorems (C01 … C12) through the adapters of `Model/Pipeline.lean`; no layer fact is re-proved.
 
 Hypotheses (`Spec/Pipeline.lean`), each a contract of a library or of the operating system:
-* `EnvOk E` - the lexer contract (`RawOk`: the raw tokens tile the text; only `Text` tokens may be
-  empty) for the seven supported lexers, decoded text / checksums / the version string are Python
-  strings without an adjacent surrogate pair (the hypothesis of C08), MD5 is injective (the
-  hypothesis of C09);
+* `EnvBase E` - the lexer contract (`RawOk`: the raw tokens tile the text; only `Text` tokens may be
+  empty) for the seven supported lexers; decoded text / checksums / the version string are Python
+  strings without an adjacent surrogate pair (the hypothesis of C08).  NOTHING about MD5;
 * `RunOk R` - the root path, uuid, timestamp and repository strings of a run are such strings;
 * `TreeOk ch` - the tree is a snapshot of a real directory (`wfDir`, C11) with such names;
-* `CacheOk E prev` - the cache file is absent, or was written by an earlier scan (of any tree, any
-  exclusion lines) that itself found such a file, or is any prefix of such a file, or is anything
-  the reader does not take for a report of the current version (C09, C10).  It cannot be dropped:
+* `HistoryOk E pats ch prev` - the hypothesis of C09 / C10 about the cache file `prev` and MD5:
+  EITHER there is no cache file (then nothing is assumed), OR there is a set `U` of byte strings on
+  which MD5 has no collision (`CollisionFree E U`) containing the contents of the files this scan
+  reads (`ScannedIn`) and such that the cache file is absent, or was written by an earlier scan (of
+  any tree, any exclusion lines) that read only contents from `U` and itself found such a file, or
+  is any prefix of such a file, or is anything the reader does not take for a report of the current
+  version (`CacheOkOn E U prev`).  Real MD5 meets this whenever no two of the finitely many file
+  contents involved collide; GLOBAL injectivity of the digest (`EnvOk.md5`, which no fixed-length
+  digest has) is NOT assumed - it is the special case `U = all byte strings`
+  (`HistoryOk.of_injective`; `Ex.exE2_not_injective` is an environment with a non-injective checksum
+  to which the theorems apply).  The restriction to honest cache files cannot be dropped:
   `Ex.forged_cache_taints`.
 
 Contents: 0 the instantiations as equations (`oracle_analyze_is_analyze`, `exclusion_lines`,
 `cache_walk_is_selection`, `cache_analyze_is_analyzeFile`, `reader_parameters`,
 `profileOf_eq_driver`, `fresh_scan_is_scanPath`) and the adapters are lossless; 1
-`scan_never_raises`; 2 `report_files_exact` (C11 + C03); 3 `report_measurements_wf` (C05); 4
+`scan_never_raises`; 2 `report_files_exact` (C11 + C03); 3 `report_measurements_wf`,
+`report_measurements_in_text` (C05); 4
 `report_totals`, `report_file_profiles`, `report_folder_profiles`, `report_tree_keys`,
 `report_grand_totals` (C07); 5 `scan_writes_valid_json`, `scan_output_reads_back`,
 `scan_output_is_next_cache` (C08); 6 `scan_with_cache_eq_fresh`, `rescan_after_interrupted_write`,
-`rescan_unchanged`, `reuse_only_if_unchanged` (C09, C10); 7 `check_root_agrees_with_report`,
-`check_file_agrees_with_report` (C12 + C02); 8 `report_entry_of_canon_tree` and its Java / JS / TS /
-Python variants (C01 on the REPORT); 9 a concrete tree evaluated end to end in the kernel
+`rescan_unchanged`, `reuse_only_if_unchanged`, `report_entries_reused_or_analysed` (C09, C10); 7 `check_root_agrees_with_report`,
+`check_file_agrees_with_report` (C12 + C02); 8 `report_entry_of_tree_text_partial` (given header discovery), `report_entry_of_canon_tree` and its
+Java / JS / TS / Python variants (C01 on the REPORT, unconditional); 9 a concrete tree evaluated end to end in the kernel
 (`Ex.ex_scan`, with the JSON text `Ex.exBytes`), on which all hypotheses hold (`Ex.exE_ok`,
-`Ex.exR_ok`, `Ex.exTree_ok`).
+`Ex.exR_ok`, `Ex.exTree_ok`), and a second environment whose checksum is NOT injective but
+collision-free on the contents that occur (`Ex.exE2`).
 -/
 namespace CL.Pipe
 
@@ -57,7 +67,9 @@ theorem oracle_analyze_is_analyze (E : Env) (pats : List Gi.Pat) {lang : Nat} {x
   analyzeText_eq h text
 
 /-- **`Sel.Oracles.excluded` is the pattern model of C11**: the oracles are `C11pat.withPatterns`
-of the exclusion lines, so every theorem of `Props/C11pat.lean` applies -/
+of the exclusion lines, so every theorem of `Props/C11pat.lean` applies.  (DEFINITIONAL: both
+conjuncts are `rfl`; this documents how `Model/Pipeline.lean` instantiates the parameter, it is not
+a property of the program.) -/
 theorem oracle_excluded_is_patterns (E : Env) (pats : List Gi.Pat) :
     oracles E pats = C11pat.withPatterns (oracles E []) pats ∧
     (oracles E pats).excluded = Gi.excludedWith pats := ⟨rfl, rfl⟩
@@ -115,7 +127,8 @@ theorem cache_analyze_is_analyzeFile (E : Env) (pats : List Gi.Pat) {p : List St
 
 /-- **the `build` and `profileOf` parameters of the reader are `Codebase.build` and
 `Codebase.makeProfile`** (`ReportReader.from_json`: `add_file` per entry, `aggregate`;
-`SourceFileEntry.__init__`: `make_profile`) -/
+`SourceFileEntry.__init__`: `make_profile`).  (DEFINITIONAL: `⟨rfl, rfl⟩`, documentation of the
+instantiation.) -/
 theorem reader_parameters (files : List (Str × Json.FileData)) (ms : List Json.Meas) :
     buildJ files = (match Codebase.build (files.map cbEntry) with
       | .ok cb => codebaseJ cb
@@ -262,7 +275,7 @@ no component is one of the 26 built-in names, no configured / `.gitignore` line 
 the checksum of `c`, the language name, and the measurements, line total and profile that
 `_analyze_file` (`CL.analyze`, which never raises) computes for the decoded bytes with that
 lexer's output. -/
-theorem report_files_exact (hE : EnvOk E) (hwf : wfDir ch = true) (hprev : CacheOk E prev)
+theorem report_files_exact (hE : EnvBase E) (hwf : wfDir ch = true) (hH : HistoryOk E R.pats ch prev)
     (h : scan E R (.dir rn ch) prev = .ok (d, bytes)) :
     (d.files.map (·.1)).Nodup ∧
     d.files.map (·.1) = (scanPath (oracles E R.pats) (.dir rn ch)).analysed ∧
@@ -270,7 +283,7 @@ theorem report_files_exact (hE : EnvOk E) (hwf : wfDir ch = true) (hprev : Cache
       Gen.all[lang]? = some x ∧
       CL.analyze x.2 (E.decode c) (E.lexOf lang (E.decode c)) = .ok (ms, C01text.totalOf ms) ∧
       k = joinPath p ∧ f = entryFor E c x ms := by
-  obtain ⟨sfiles, cb, hs, hkey, _, rfl, _⟩ := scan_spec hE hwf hprev h
+  obtain ⟨sfiles, cb, hs, hkey, _, rfl, _⟩ := scan_spec_on hE hwf hH h
   have hex := C11pat.scanned_entries_exact_patterns (oracles E []) R.pats rn ch hwf hs
   have hkeys : (sfiles.map fun kv => fileOfSel kv.2).map (·.1) = sfiles.map (·.1) := by
     rw [List.map_map]
@@ -302,14 +315,14 @@ theorem report_files_exact (hE : EnvOk E) (hwf : wfDir ch = true) (hprev : Cache
 
 /-- consequence: the entry of a qualifying file is in the report, and it is the only entry under
 that path (used for C01 below) -/
-theorem report_entry_of_analysis (hE : EnvOk E) (hwf : wfDir ch = true) (hprev : CacheOk E prev)
+theorem report_entry_of_analysis (hE : EnvBase E) (hwf : wfDir ch = true) (hH : HistoryOk E R.pats ch prev)
     (h : scan E R (.dir rn ch) prev = .ok (d, bytes))
     {p : List Str} {c : Str} {lang : Nat} {x : String × Language} {ms : List Measurement} {n : Nat}
     (hq : C11pat.Qualifies R.pats (langOf E) ch p c lang) (hx : Gen.all[lang]? = some x)
     (ha : CL.analyze x.2 (E.decode c) (E.lexOf lang (E.decode c)) = .ok (ms, n)) :
     (joinPath p, entryFor E c x ms) ∈ d.files ∧
     ∀ f, (joinPath p, f) ∈ d.files → f = entryFor E c x ms := by
-  obtain ⟨hnd, _, hiff⟩ := report_files_exact hE hwf hprev h
+  obtain ⟨hnd, _, hiff⟩ := report_files_exact hE hwf hH h
   have hn : n = C01text.totalOf ms := by
     unfold CL.analyze at ha
     split at ha
@@ -339,20 +352,23 @@ theorem cast_total (ms : List Measurement) :
       omega
   simpa [C01text.totalOf] using h ms 0
 
-/-- **every measurement in the report is well-formed for the text of its file** (`MeasWf`: lines
-between 1 and the number of lines of the text, start strictly before end, columns from 1, at
-least one line long, the name is a slice of the text), the functions of a file are listed in
-source order with distinct starts, and the file's `loc` is the sum of its function lengths.  The
-text is the decoding of the bytes of the qualifying file the entry belongs to. -/
-theorem report_measurements_wf (hE : EnvOk E) (hwf : wfDir ch = true) (hprev : CacheOk E prev)
+/-- **every measurement in the report is well-formed for the text of its file and the lexer's
+tokens of that text** - the per-measurement clause of C05 (`MeasWf`, `Spec/Pipeline.lean`): lines
+between 1 and the number of lines of the text, start strictly before end, columns from 1; the
+measurement starts AT a code token and ends just past a code token; its name is the text of a `Name`
+token lying INSIDE the span; and `1 ≤ length ≤` the number of code-bearing lines of the span.  The
+functions of a file are listed in source order with distinct starts, and the file's `loc` is the
+sum of its function lengths.  The text is the decoding of the bytes of the qualifying file the
+entry belongs to, the tokens are what that file's lexer returns for it. -/
+theorem report_measurements_wf (hE : EnvBase E) (hwf : wfDir ch = true) (hH : HistoryOk E R.pats ch prev)
     (h : scan E R (.dir rn ch) prev = .ok (d, bytes)) :
     ∀ k f, (k, f) ∈ d.files → ∃ p c lang, C11pat.Qualifies R.pats (langOf E) ch p c lang ∧
       k = joinPath p ∧ f.checksum = E.checksum c ∧
-      (∀ m ∈ f.measurements, MeasWf (E.decode c) m) ∧
+      (∀ m ∈ f.measurements, MeasWf (E.decode c) (E.lexOf lang (E.decode c)) m) ∧
       f.measurements.Pairwise (fun a b => a.sl < b.sl ∨ (a.sl = b.sl ∧ a.sc < b.sc)) ∧
       f.loc = (f.measurements.map (·.value)).sum := by
   intro k f hkf
-  obtain ⟨p, c, lang, x, ms, hq, hx, ha, rfl, rfl⟩ := ((report_files_exact hE hwf hprev h).2.2 k f).1 hkf
+  obtain ⟨p, c, lang, x, ms, hq, hx, ha, rfl, rfl⟩ := ((report_files_exact hE hwf hH h).2.2 k f).1 hkf
   have hlt := langOf_lt hq.2.2.2.2
   have hL := lang_mem_all hx
   have hraw := hE.lexer.tiles lang (E.decode c) hlt
@@ -360,19 +376,7 @@ theorem report_measurements_wf (hE : EnvOk E) (hwf : wfDir ch = true) (hprev : C
   refine ⟨p, c, lang, hq, rfl, rfl, ?_, ?_, cast_total ms⟩
   · intro m hm
     obtain ⟨m0, hm0, rfl⟩ := List.mem_map.1 hm
-    obtain ⟨h1, h2, h3, h4, ls, le, o, ch', _, _, h5, _, h6, _⟩ :=
-      C05text.measurement_lines_columns x.2 hL _ _ hraw hne ms _ ha m0 hm0
-    obtain ⟨ri, rj, rk, _, _, _, _, _, _, _, hk1, hk2, hjb, _, _, _, _, hname, htake, hkend, hlen, _⟩ :=
-      C05text.measurement_text_wf x.2 hL _ _ hraw hne ms _ ha m0 hm0
-    have h3' : m0.el ≤ numLines (E.decode c) := h3
-    simp only [MeasWf, measOf]
-    refine ⟨by exact_mod_cast h1, by exact_mod_cast h2, by exact_mod_cast h3', ?_, by exact_mod_cast h5,
-      by exact_mod_cast h6, by exact_mod_cast hlen, rk.off, ?_, htake⟩
-    · rcases h4 with h4 | ⟨h4, h4'⟩
-      · exact Or.inl (by exact_mod_cast h4)
-      · exact Or.inr ⟨by exact_mod_cast h4, by exact_mod_cast h4'⟩
-    · show rk.off + m0.name.length ≤ (E.decode c).length
-      omega
+    exact measWf_of_analyze x.2 hL _ _ hraw hne ms _ ha m0 hm0
   · have := C05text.source_order_text x.2 hL _ _ hraw hne ms _ ha
     rw [entryFor]
     simp only [List.pairwise_map, measOf]
@@ -381,6 +385,26 @@ theorem report_measurements_wf (hE : EnvOk E) (hwf : wfDir ch = true) (hprev : C
       rcases hab with hab | ⟨h1, h2⟩
       · exact Or.inl (by exact_mod_cast hab)
       · exact Or.inr ⟨by exact_mod_cast h1, by exact_mod_cast h2⟩)
+
+/-- text-only consequences of `MeasWf` for every measurement of the report: the length is at most
+the number of lines of the span (`value ≤ el - sl + 1`), and the unit name is found in the text at
+an offset between the offsets `location_to_index` assigns to the start and to the end -/
+theorem report_measurements_in_text (hE : EnvBase E) (hwf : wfDir ch = true) (hH : HistoryOk E R.pats ch prev)
+    (h : scan E R (.dir rn ch) prev = .ok (d, bytes)) :
+    ∀ k f, (k, f) ∈ d.files → ∃ p c lang, C11pat.Qualifies R.pats (langOf E) ch p c lang ∧
+      k = joinPath p ∧ ∀ m ∈ f.measurements, 1 ≤ m.value ∧ m.value ≤ m.el - m.sl + 1 ∧
+        ∃ os oe o, locationToIndex (E.decode c) m.sl.toNat m.sc.toNat = .ok os ∧
+          locationToIndex (E.decode c) m.el.toNat m.ec.toNat = .ok oe ∧
+          os ≤ o ∧ o + m.unitName.length ≤ oe ∧ oe ≤ (E.decode c).length ∧
+          ((E.decode c).drop o).take m.unitName.length = m.unitName := by
+  intro k f hkf
+  obtain ⟨p, c, lang, hq, hk, _, hm, _⟩ := report_measurements_wf hE hwf hH h k f hkf
+  refine ⟨p, c, lang, hq, hk, fun m hmm => ?_⟩
+  have hw := hm m hmm
+  have h1 : 1 ≤ m.value := by
+    obtain ⟨_, _, _, _, _, _, _, _, _, _, _, _, _, _, _, _, _, _, _, _, _, _, _, _, _, h1, _⟩ := hw
+    exact h1
+  exact ⟨h1, hw.value_le_lines, hw.name_in_span⟩
 
 end Files
 
@@ -424,14 +448,14 @@ theorem report_totals (hwf : wfDir ch = true) (h : scan E R (.dir rn ch) prev = 
 
 /-- **file profiles**: the stored profile of every listed file is `make_profile` of its
 measurements, and its four buckets add up to the file's line total -/
-theorem report_file_profiles (hE : EnvOk E) (hwf : wfDir ch = true) (hprev : CacheOk E prev)
+theorem report_file_profiles (hE : EnvBase E) (hwf : wfDir ch = true) (hH : HistoryOk E R.pats ch prev)
     (h : scan E R (.dir rn ch) prev = .ok (d, bytes)) :
     ∀ kv ∈ d.files, kv.2.profile = profileOf kv.2.measurements ∧ kv.2.profile.sum = kv.2.loc := by
   intro kv hkv
   obtain ⟨files, cb, hf, _, rfl, _⟩ := scan_ok_iff.1 h
   have hp := entriesOf_profiles hf kv hkv
   refine ⟨hp, ?_⟩
-  obtain ⟨_, _, _, _, _, _, _, _, hloc⟩ := report_measurements_wf hE hwf hprev h kv.1 kv.2 hkv
+  obtain ⟨_, _, _, _, _, _, _, _, hloc⟩ := report_measurements_wf hE hwf hH h kv.1 kv.2 hkv
   rw [hp, hloc]
   have := (C07.file_profile_partition (cbEntry kv)).2
   simp only [Codebase.FileEntry.profile, cbEntry] at this
@@ -496,28 +520,31 @@ variable {E : Env} {R : Pipeline.Run} {rn : Str} {ch : List Sel.Node} {prev : Op
 
 /-- **the cache file a scan writes is valid JSON**, its value is the value of the report
 (`Json.toJson d`), and the compact form parses to the same value -/
-theorem scan_writes_valid_json (hE : EnvOk E) (hR : RunOk R) (hT : TreeOk ch) (hprev : CacheOk E prev)
+theorem scan_writes_valid_json (hE : EnvBase E) (hR : RunOk R) (hT : TreeOk ch) (hH : HistoryOk E R.pats ch prev)
     (h : scan E R (.dir rn ch) prev = .ok (d, bytes)) :
     Json.parseJson bytes = some (Json.toJson d) ∧
     Json.parseJson (Json.write false d) = some (Json.toJson d) := by
-  obtain ⟨hg, hk, _, rfl, _⟩ := scan_report_facts hE hR hT hprev h
+  obtain ⟨hg, hk, _, rfl, _⟩ := scan_report_facts_on hE hR hT hH h
   exact C08.valid_json d hg hk
 
 /-- **reading the file back gives the same report**, up to the reader's clock (and the repository
 tag, which is not written): `ReportReader.from_json` with `Codebase.build` and `make_profile`
 re-run on the entries read -/
-theorem scan_output_reads_back (hE : EnvOk E) (hR : RunOk R) (hT : TreeOk ch) (hprev : CacheOk E prev)
+theorem scan_output_reads_back (hE : EnvBase E) (hR : RunOk R) (hT : TreeOk ch) (hH : HistoryOk E R.pats ch prev)
     (h : scan E R (.dir rn ch) prev = .ok (d, bytes)) (now : Str) :
     (Json.parseJson bytes).map (Json.fromJson buildJ profileOf now) = some (.ok (C08.upToTimestamp now d)) := by
-  obtain ⟨hg, hk, hr, rfl, _⟩ := scan_report_facts hE hR hT hprev h
+  obtain ⟨hg, hk, hr, rfl, _⟩ := scan_report_facts_on hE hR hT hH h
   exact C08.round_trip buildJ profileOf now d hg hk hr true
 
 /-- ... and `_read_cached_report` of the next scan sees a document of the current version whose
-entries are exactly the entries of this report -/
-theorem scan_output_is_next_cache (hE : EnvOk E) (hR : RunOk R) (hT : TreeOk ch) (hprev : CacheOk E prev)
+entries are exactly the entries of this report; the file is an admissible cache for any later scan
+(`CacheOkOn.written`: if this scan read only contents from `U` and its own cache file came from a
+history within `U`, so does the file it wrote) -/
+theorem scan_output_is_next_cache (hE : EnvBase E) (hR : RunOk R) (hT : TreeOk ch) (hH : HistoryOk E R.pats ch prev)
     (h : scan E R (.dir rn ch) prev = .ok (d, bytes)) :
-    readCache (some bytes) = .doc (some E.version) (rowsOfFiles d.files) ∧ CacheOk E (some bytes) :=
-  ⟨(scan_report_facts hE hR hT hprev h).2.2.2.2, .written hprev hR hT h⟩
+    readCache (some bytes) = .doc (some E.version) (rowsOfFiles d.files) ∧
+    ∀ U, ScannedIn E R.pats ch U → CacheOkOn E U prev → CacheOkOn E U (some bytes) :=
+  ⟨(scan_report_facts_on hE hR hT hH h).2.2.2.2, fun _ hS hprev => .written hprev hR hT hS h⟩
 
 end Document
 
@@ -530,9 +557,18 @@ variable {E : Env}
 scan - of any tree, under any exclusion lines and run parameters, itself starting from such a
 file: any finite history of edits and scans -, or any prefix of such a file (interrupted write,
 truncation at any byte), or anything the reader does not take for a report of the current version
-(junk, a directory listing, a report of another version with altered entries).  Then the scan
-returns the same report and writes the same bytes as a scan that finds no cache file. -/
-theorem scan_with_cache_eq_fresh (hE : EnvOk E) {prev : Option Str} (hprev : CacheOk E prev)
+(junk, a directory listing, a report of another version with altered entries); and let MD5 have no
+collision among the contents of the files read by this scan and by the scans of that history
+(`HistoryOk`).  Then the scan returns the same report and writes the same bytes as a scan that finds
+no cache file. -/
+theorem scan_with_cache_eq_fresh (hE : EnvBase E) {R : Pipeline.Run} {rn : Str} {ch : List Sel.Node}
+    (hwf : wfDir ch = true) {prev : Option Str} (hH : HistoryOk E R.pats ch prev) :
+    scan E R (.dir rn ch) prev = scan E R (.dir rn ch) none :=
+  scan_eq_fresh_on hE hwf hH
+
+/-- the idealised special case: with a checksum that is injective on ALL byte strings (`EnvOk.md5`;
+no real digest) the root need not even be a well-formed directory -/
+theorem scan_with_cache_eq_fresh_of_injective (hE : EnvOk E) {prev : Option Str} (hprev : CacheOk E prev)
     (R : Pipeline.Run) (root : Sel.Node) : scan E R root prev = scan E R root none :=
   scan_eq_fresh hE hprev R root
 
@@ -542,36 +578,43 @@ theorem foreign_of_not_json (E : Env) {b : Str} (h : Json.parseJson b = none) : 
   simp [readCache, h] at he
 
 /-- the complete file written by a tool of ANOTHER version (environment `E'`) is `Foreign` -/
-theorem foreign_of_other_version {E' : Env} (hE' : EnvOk E') {R : Pipeline.Run} (hR : RunOk R) {rn : Str}
-    {ch : List Sel.Node} (hT : TreeOk ch) {prev : Option Str} (hprev : CacheOk E' prev)
+theorem foreign_of_other_version {E' : Env} (hE' : EnvBase E') {R : Pipeline.Run} (hR : RunOk R) {rn : Str}
+    {ch : List Sel.Node} (hT : TreeOk ch) {prev : Option Str} (hH : HistoryOk E' R.pats ch prev)
     {d : Json.ReportData} {bytes : Str} (h : scan E' R (.dir rn ch) prev = .ok (d, bytes))
     (hv : E'.version ≠ E.version) : Foreign E bytes := by
   intro es he
-  rw [(scan_report_facts hE' hR hT hprev h).2.2.2.2] at he
+  rw [(scan_report_facts_on hE' hR hT hH h).2.2.2.2] at he
   injection he with h1 _
   exact hv (Option.some.inj h1)
 
-/-- **a second scan of anything, started from the file the first scan wrote - complete or cut at
-any byte - gives what a fresh scan gives** -/
-theorem rescan_after_interrupted_write (hE : EnvOk E) {R : Pipeline.Run} (hR : RunOk R) {rn : Str}
-    {ch : List Sel.Node} (hT : TreeOk ch) {prev : Option Str} (hprev : CacheOk E prev)
+/-- **a second scan of any directory, started from the file the first scan wrote - complete or cut
+at any byte - gives what a fresh scan gives**, provided MD5 has no collision among the contents the
+two scans (and the history before them) read -/
+theorem rescan_after_interrupted_write (hE : EnvBase E) {U : Str → Prop} (hU : CollisionFree E U)
+    {R : Pipeline.Run} (hR : RunOk R) {rn : Str} {ch : List Sel.Node} (hT : TreeOk ch)
+    (hS : ScannedIn E R.pats ch U) {prev : Option Str} (hprev : CacheOkOn E U prev)
     {d : Json.ReportData} {bytes : Str} (h : scan E R (.dir rn ch) prev = .ok (d, bytes))
-    {p : Str} (hp : p <+: bytes) (R' : Pipeline.Run) (root' : Sel.Node) :
-    scan E R' root' (some p) = scan E R' root' none :=
-  scan_eq_fresh hE (.cut hprev hR hT h hp) R' root'
+    {p : Str} (hp : p <+: bytes) (R' : Pipeline.Run) (rn' : Str) {ch' : List Sel.Node}
+    (hwf' : wfDir ch' = true) (hS' : ScannedIn E R'.pats ch' U) :
+    scan E R' (.dir rn' ch') (some p) = scan E R' (.dir rn' ch') none :=
+  scan_eq_fresh_on hE hwf' (Or.inr ⟨U, hU, hS', .cut hprev hR hT hS h hp⟩)
 
 /-- **an unchanged tree scanned twice gives the same report** (same run parameters; the second
 scan reads the file the first one wrote) -/
-theorem rescan_unchanged (hE : EnvOk E) {R : Pipeline.Run} (hR : RunOk R) {rn : Str}
-    {ch : List Sel.Node} (hT : TreeOk ch) {prev : Option Str} (hprev : CacheOk E prev)
+theorem rescan_unchanged (hE : EnvBase E) {U : Str → Prop} (hU : CollisionFree E U)
+    {R : Pipeline.Run} (hR : RunOk R) {rn : Str} {ch : List Sel.Node} (hT : TreeOk ch)
+    (hS : ScannedIn E R.pats ch U) {prev : Option Str} (hprev : CacheOkOn E U prev)
     {d : Json.ReportData} {bytes : Str} (h : scan E R (.dir rn ch) prev = .ok (d, bytes)) :
     scan E R (.dir rn ch) (some bytes) = .ok (d, bytes) := by
-  rw [scan_eq_fresh hE (.written hprev hR hT h), ← scan_eq_fresh hE hprev, h]
+  rw [scan_eq_fresh_on hE hT.wf (Or.inr ⟨U, hU, hS, .written hprev hR hT hS h⟩),
+    ← scan_eq_fresh_on hE hT.wf (Or.inr ⟨U, hU, hS, hprev⟩), h]
 
 /-- **when an entry is taken from the cache** (C09.2 on the instantiated model; no hypothesis): only
 for a file the walk selects, only when the reader made a document of the CURRENT version of the
 cache file, and only when that document holds, under the same printed path, an entry whose checksum
-is the checksum of the file's current bytes; every other selected file is analysed -/
+is the checksum of the file's current bytes; every other selected file is analysed.
+(`Cache.reusedFiles` / `analysedFiles` are the instrumentation of the cache model; what they say
+about the REPORT `scan` returns is `report_entries_reused_or_analysed` below.) -/
 theorem reuse_only_if_unchanged (E : Env) (pats : List Gi.Pat) (ch : List Sel.Node) (prev : Option Str) :
     (∀ f ∈ Cache.reusedFiles (cacheParams E) (cacheState pats ch prev),
       f ∈ fsOf ch ∧ selectedKey E pats f.1 = true ∧
@@ -582,6 +625,81 @@ theorem reuse_only_if_unchanged (E : Env) (pats : List Gi.Pat) (ch : List Sel.No
   refine ⟨fun f hf => ?_, (C09.analysed_reused_partition (cacheParams E) (cacheState pats ch prev)).1⟩
   obtain ⟨h1, h2, es, e, h3, h4, _⟩ := C09.reuse_only_if_unchanged (cacheParams E) (cacheState pats ch prev) f hf
   exact ⟨h1, h2, es, e, h3, h4⟩
+
+/-- **the instrumentation of `reuse_only_if_unchanged` is about the report `scan` returns**: the
+entries of the report are, in order, one per file the walk hands to `_scan_file` (`Cache.walk`:
+key `k`, bytes `c`), each holding the checksum of `c`; and the entry of a file counted in
+`Cache.reusedFiles` is the entry stored in the cache document under the same path and checksum
+(copied, not recomputed), while the entry of a file counted in `Cache.analysedFiles` is
+`_analyze_file` (`analyzeRow`) of its current bytes.  No hypothesis: this holds for forged cache
+files too (`Ex.forged_cache_taints` is the first case at work). -/
+theorem report_entries_reused_or_analysed {E : Env} {R : Pipeline.Run} {rn : Str} {ch : List Sel.Node}
+    {prev : Option Str} {d : Json.ReportData} {bytes : Str} (h : scan E R (.dir rn ch) prev = .ok (d, bytes)) :
+    d.files.map (·.1) = (Cache.walk (cacheParams E) (cacheState R.pats ch prev)).map (·.1) ∧
+    ∀ k f, (k, f) ∈ d.files → ∃ c, (k, c) ∈ Cache.walk (cacheParams E) (cacheState R.pats ch prev) ∧
+      f.checksum = E.checksum c ∧
+      (((k, c) ∈ Cache.reusedFiles (cacheParams E) (cacheState R.pats ch prev) ∧
+          ∃ es row, readCache prev = .doc (some E.version) es ∧ (k, E.checksum c, .ok row) ∈ es ∧
+            f = fileData (E.checksum c) row) ∨
+       ((k, c) ∈ Cache.analysedFiles (cacheParams E) (cacheState R.pats ch prev) ∧
+          ∃ row, analyzeRow E k c = .ok row ∧ f = fileData (E.checksum c) row)) := by
+  obtain ⟨files, cb, hf, _, rfl, _⟩ := scan_ok_iff.1 h
+  have hrows : scanRows E R.pats (.dir rn ch) prev =
+      (Cache.walk (cacheParams E) (cacheState R.pats ch prev)).map
+        (fun w => (Cache.scanFile (cacheParams E)
+          (Cache.readCachedReport (cacheParams E) (readCache prev)) w).1) := by
+    simp only [scanRows, Cache.scan, Cache.report, Cache.scanLog, List.map_map, Function.comp_def]
+    rfl
+  refine ⟨?_, ?_⟩
+  · show files.map (·.1) = _
+    rw [entriesOf_keys hf, hrows, List.map_map]
+    apply List.map_congr_left
+    intro w _
+    exact (Cache.scanFile_path (cacheParams E) _ w).1
+  · intro k f hkf
+    have hkf' : (k, f) ∈ files := hkf
+    have hprof := entriesOf_profiles hf (k, f) hkf'
+    have hr : (k, f.checksum, Except.ok (⟨f.language, f.loc, f.measurements⟩ : Row)) ∈
+        scanRows E R.pats (.dir rn ch) prev := by
+      rw [← rowsOfFiles_entriesOf hf]
+      exact List.mem_map.2 ⟨(k, f), hkf', rfl⟩
+    rw [hrows] at hr
+    obtain ⟨w, hw, hwe⟩ := List.mem_map.1 hr
+    obtain ⟨hp1, hp2⟩ := Cache.scanFile_path (cacheParams E)
+      (Cache.readCachedReport (cacheParams E) (readCache prev)) w
+    rw [hwe] at hp1 hp2
+    simp only at hp1 hp2
+    obtain ⟨wk, wc⟩ := w
+    simp only at hp1 hp2
+    subst hp1
+    have hfd : f = fileData (E.checksum wc) ⟨f.language, f.loc, f.measurements⟩ := by
+      obtain ⟨cs, la, lo, pr, me⟩ := f
+      simp only at hprof hp2
+      simp only [fileData, Json.FileData.mk.injEq, true_and, and_true]
+      exact ⟨hp2, hprof⟩
+    refine ⟨wc, hw, hp2, ?_⟩
+    by_cases hre : (Cache.scanFile (cacheParams E)
+        (Cache.readCachedReport (cacheParams E) (readCache prev)) (k, wc)).2 = .reused
+    · left
+      refine ⟨List.mem_filter.2 ⟨hw, decide_eq_true hre⟩, ?_⟩
+      obtain ⟨es, e, hes, hl, hrow⟩ := (Cache.scanFile_reused_iff (cacheParams E)).1 hre
+      rw [hwe] at hrow
+      have he : e = .ok ⟨f.language, f.loc, f.measurements⟩ := by
+        have := congrArg (fun x => x.2.2) hrow
+        exact this.symm
+      subst he
+      exact ⟨es, _, (Cache.readCachedReport_eq_some (cacheParams E)).1 hes, Cache.lookupLast_mem hl, hfd⟩
+    · right
+      refine ⟨List.mem_filter.2 ⟨hw, by
+        show (!decide ((Cache.scanFile (cacheParams E)
+          (Cache.readCachedReport (cacheParams E) (readCache prev)) (k, wc)).2 = .reused)) = true
+        simp [hre]⟩, ?_⟩
+      have hrow := Cache.scanFile_analysed_row (cacheParams E) hre
+      rw [hwe] at hrow
+      have : (Except.ok ⟨f.language, f.loc, f.measurements⟩ : Except Err Row) = analyzeRow E k wc := by
+        have := congrArg (fun x => x.2.2) hrow
+        exact this
+      exact ⟨_, this.symm, hfd⟩
 
 end Caching
 
@@ -613,7 +731,7 @@ lists the functions of the report entry that are longer than 30 lines, longest f
 the exit status is 1 exactly when some function in the report is longer than 60 lines (else 0);
 the summary count is the number of functions listed; with `--quiet` nothing is printed exactly when
 nothing is listed. -/
-theorem check_root_agrees_with_report (hE : EnvOk E) (hwf : wfDir ch = true) (hprev : CacheOk E prev)
+theorem check_root_agrees_with_report (hE : EnvBase E) (hwf : wfDir ch = true) (hH : HistoryOk E R.pats ch prev)
     (h : scan E R (.dir rn ch) prev = .ok (d, bytes))
     (arg : CheckArg) (harg : arg = .relDir [] ∨ arg = .absDir []) (quiet : Bool) :
     ∃ co, check E R.pats (.dir rn ch) [] [arg] quiet = .ok co ∧
@@ -624,7 +742,7 @@ theorem check_root_agrees_with_report (hE : EnvOk E) (hwf : wfDir ch = true) (hp
       (co.out.exitCode = 0 ∨ co.out.exitCode = 1) ∧
       co.out.count = ((co.out.listed.flatten.length : Nat) : Int) ∧
       (co.out.printed = false ↔ quiet = true ∧ co.out.listed.flatten = []) := by
-  obtain ⟨sfiles, cb, hs, hkey, _, rfl, _⟩ := scan_spec hE hwf hprev h
+  obtain ⟨sfiles, cb, hs, hkey, _, rfl, _⟩ := scan_spec_on hE hwf hH h
   obtain ⟨fl, hfl, hmap⟩ := (C12.check_root_agrees_with_scan (oracles E R.pats) rn ch hwf arg harg).2.2.2 sfiles hs
   have hfiles : (mkReport E R cb (sfiles.map fun kv => fileOfSel kv.2)).files = sfiles.map fun kv => fileOfSel kv.2 := rfl
   -- every listed item is a `risksOf`
@@ -669,13 +787,13 @@ theorem check_root_agrees_with_report (hE : EnvOk E) (hwf : wfDir ch = true) (hp
 
 /-- **a listed file named on the command line by its relative path**: `check` lists for it the
 functions of its report entry that are longer than 30 lines -/
-theorem check_file_agrees_with_report (hE : EnvOk E) (hwf : wfDir ch = true) (hprev : CacheOk E prev)
+theorem check_file_agrees_with_report (hE : EnvBase E) (hwf : wfDir ch = true) (hH : HistoryOk E R.pats ch prev)
     (h : scan E R (.dir rn ch) prev = .ok (d, bytes))
     {p : List Str} {c : Str} {lang : Nat} (hq : C11pat.Qualifies R.pats (langOf E) ch p c lang)
     {f : Json.FileData} (hf : (joinPath p, f) ∈ d.files) (quiet : Bool) :
     ∃ co risks, check E R.pats (.dir rn ch) [] [.relFile p] quiet = .ok co ∧
       co.files = [(⟨false, p⟩, risks)] ∧ risks.map measOf = risksJ f.measurements := by
-  obtain ⟨sfiles, cb, hs, hkey, _, rfl, _⟩ := scan_spec hE hwf hprev h
+  obtain ⟨sfiles, cb, hs, hkey, _, rfl, _⟩ := scan_spec_on hE hwf hH h
   obtain ⟨⟨k, e⟩, hke, hfe⟩ := List.mem_map.1 hf
   have hk := hkey _ hke
   simp only [fileOfSel, Prod.mk.injEq] at hfe hk
@@ -708,8 +826,14 @@ file whose decoded content is the text of a program forest `prog` (well-formed, 
 directly followed by a brace group, code tokens only, spaced) has in the REPORT exactly the entry
 read off the tree: every function node once, under its name, from its header to its closing
 brace, with its own lines (`TreeOps.reportOf`), the checksum of its bytes, its language, the sum
-of the lengths and the profile of the lengths. -/
-theorem report_entry_of_tree_text (hE : EnvOk E) (hwf : wfDir ch = true) (hprev : CacheOk E prev)
+of the lengths and the profile of the lengths.
+
+`_partial`: the hypotheses `hh`, `hperm` (header DISCOVERY: `extract_headers` on the rendered tokens
+returns, up to order, the headers of the function nodes) speak about the matcher's output and are
+inherited from `C01text.analyze_of_tree_text_partial`; they are discharged for the decidable
+canonical fragments by the variants below (`report_entry_of_canon_tree`, `…_java_tree`, `…_js_tree`,
+`…_ts_tree`, `report_entry_of_pytree`), which need no such hypothesis. -/
+theorem report_entry_of_tree_text_partial (hE : EnvBase E) (hwf : wfDir ch = true) (hH : HistoryOk E R.pats ch prev)
     (h : scan E R (.dir rn ch) prev = .ok (d, bytes))
     {p : List Str} {c : Str} {lang : Nat} {x : String × Language}
     (hq : C11pat.Qualifies R.pats (langOf E) ch p c lang) (hx : Gen.all[lang]? = some x)
@@ -722,11 +846,11 @@ theorem report_entry_of_tree_text (hE : EnvOk E) (hwf : wfDir ch = true) (hprev 
     ∀ f, (joinPath p, f) ∈ d.files → f = entryFor E c x (reportOf x.2 prog) := by
   have := C01text.analyze_of_tree_text_partial hpy hw ha hc hs hh hperm
   rw [← hlex, ← htext] at this
-  exact report_entry_of_analysis hE hwf hprev h hq hx this
+  exact report_entry_of_analysis hE hwf hH h hq hx this
 
 /-- **C01 on the report, C / C++ / C#, unconditional** (stage F): for a forest in the decidable
 canonical fragment (`Prog.Canon`) no hypothesis about the matcher remains -/
-theorem report_entry_of_canon_tree (hE : EnvOk E) (hwf : wfDir ch = true) (hprev : CacheOk E prev)
+theorem report_entry_of_canon_tree (hE : EnvBase E) (hwf : wfDir ch = true) (hH : HistoryOk E R.pats ch prev)
     (h : scan E R (.dir rn ch) prev = .ok (d, bytes))
     {p : List Str} {c : Str} {lang : Nat} {x : String × Language}
     (hq : C11pat.Qualifies R.pats (langOf E) ch p c lang) (hx : Gen.all[lang]? = some x)
@@ -739,11 +863,11 @@ theorem report_entry_of_canon_tree (hE : EnvOk E) (hwf : wfDir ch = true) (hprev
   have hw' : prog.located.wfCore = true := by rw [Prog.located, wfCore_locate]; exact hw
   have ha' : prog.located.noAdj = true := by rw [Prog.located, noAdj_locate]; exact ha
   have hc' : prog.located.Canon = true := by rw [C01full.canon_of_rendered]; exact hcan
-  exact report_entry_of_tree_text hE hwf hprev h hq hx htext hlex (C01full.cFamily_brace _ hL) hw ha hc hs
+  exact report_entry_of_tree_text_partial hE hwf hH h hq hx htext hlex (C01full.cFamily_brace _ hL) hw ha hc hs
     (C01full.discovery_of_canon hL hc' hw' ha') (List.Perm.refl _)
 
 /-- **C01 on the report, Java** (`CanonJava`) -/
-theorem report_entry_of_canon_java_tree (hE : EnvOk E) (hwf : wfDir ch = true) (hprev : CacheOk E prev)
+theorem report_entry_of_canon_java_tree (hE : EnvBase E) (hwf : wfDir ch = true) (hH : HistoryOk E R.pats ch prev)
     (h : scan E R (.dir rn ch) prev = .ok (d, bytes))
     {p : List Str} {c : Str} {lang : Nat}
     (hq : C11pat.Qualifies R.pats (langOf E) ch p c lang) (hx : Gen.all[lang]? = some ("Java", Gen.java))
@@ -755,11 +879,11 @@ theorem report_entry_of_canon_java_tree (hE : EnvOk E) (hwf : wfDir ch = true) (
   have hw' : prog.located.wfCore = true := by rw [Prog.located, wfCore_locate]; exact hw
   have ha' : prog.located.noAdj = true := by rw [Prog.located, noAdj_locate]; exact ha
   have hc' : prog.located.CanonJava = true := by rw [C01full.canonJava_of_rendered]; exact hcan
-  exact report_entry_of_tree_text hE hwf hprev h hq hx htext hlex rfl hw ha hc hs
+  exact report_entry_of_tree_text_partial hE hwf hH h hq hx htext hlex rfl hw ha hc hs
     (C01full.discovery_of_canon_java hc' hw' ha') (List.Perm.refl _)
 
 /-- **C01 on the report, JavaScript** (`CanonJs`: no assigned arrow functions) -/
-theorem report_entry_of_canon_js_tree (hE : EnvOk E) (hwf : wfDir ch = true) (hprev : CacheOk E prev)
+theorem report_entry_of_canon_js_tree (hE : EnvBase E) (hwf : wfDir ch = true) (hH : HistoryOk E R.pats ch prev)
     (h : scan E R (.dir rn ch) prev = .ok (d, bytes))
     {p : List Str} {c : Str} {lang : Nat}
     (hq : C11pat.Qualifies R.pats (langOf E) ch p c lang)
@@ -773,11 +897,11 @@ theorem report_entry_of_canon_js_tree (hE : EnvOk E) (hwf : wfDir ch = true) (hp
   have hw' : prog.located.wfCore = true := by rw [Prog.located, wfCore_locate]; exact hw
   have ha' : prog.located.noAdj = true := by rw [Prog.located, noAdj_locate]; exact ha
   have hc' : prog.located.CanonJs = true := by rw [Prog.located, canonJs_locate]; exact hcan
-  exact report_entry_of_tree_text hE hwf hprev h hq hx htext hlex rfl hw ha hc hs
+  exact report_entry_of_tree_text_partial hE hwf hH h hq hx htext hlex rfl hw ha hc hs
     (C01full.discovery_of_canon_js hc' hw' ha') (List.Perm.refl _)
 
 /-- **C01 on the report, TypeScript** (`CanonTs`) -/
-theorem report_entry_of_canon_ts_tree (hE : EnvOk E) (hwf : wfDir ch = true) (hprev : CacheOk E prev)
+theorem report_entry_of_canon_ts_tree (hE : EnvBase E) (hwf : wfDir ch = true) (hH : HistoryOk E R.pats ch prev)
     (h : scan E R (.dir rn ch) prev = .ok (d, bytes))
     {p : List Str} {c : Str} {lang : Nat}
     (hq : C11pat.Qualifies R.pats (langOf E) ch p c lang)
@@ -791,14 +915,14 @@ theorem report_entry_of_canon_ts_tree (hE : EnvOk E) (hwf : wfDir ch = true) (hp
   have hw' : prog.located.wfCore = true := by rw [Prog.located, wfCore_locate]; exact hw
   have ha' : prog.located.noAdj = true := by rw [Prog.located, noAdj_locate]; exact ha
   have hc' : prog.located.CanonTs = true := by rw [Prog.located, canonTs_locate]; exact hcan
-  exact report_entry_of_tree_text hE hwf hprev h hq hx htext hlex rfl hw ha hc hs
+  exact report_entry_of_tree_text_partial hE hwf hH h hq hx htext hlex rfl hw ha hc hs
     (C01full.discovery_of_canon_ts hc' hw' ha') (List.Perm.refl _)
 
 /-- **C01 on the report, Python, unconditional** (stages P + T'): a qualifying `.py` file whose
 decoded content is the text of a well-formed, spaced indentation tree `t` has in the REPORT
 exactly the entry read off the tree (`pyTreeReport`: every `def` node once, from its `def` token
 to the end of its suite, with the physical lines of its own tokens) -/
-theorem report_entry_of_pytree (hE : EnvOk E) (hwf : wfDir ch = true) (hprev : CacheOk E prev)
+theorem report_entry_of_pytree (hE : EnvBase E) (hwf : wfDir ch = true) (hH : HistoryOk E R.pats ch prev)
     (h : scan E R (.dir rn ch) prev = .ok (d, bytes))
     {p : List Str} {c : Str} {lang : Nat}
     (hq : C11pat.Qualifies R.pats (langOf E) ch p c lang) (hx : Gen.all[lang]? = some ("Python", Gen.python))
@@ -808,7 +932,7 @@ theorem report_entry_of_pytree (hE : EnvOk E) (hwf : wfDir ch = true) (hprev : C
     ∀ f, (joinPath p, f) ∈ d.files → f = entryFor E c ("Python", Gen.python) (pyTreeReport t.located) := by
   have := C01pytext.analyze_of_pytree_text hw hs
   rw [← hlex, ← htext] at this
-  exact report_entry_of_analysis hE hwf hprev h hq hx this
+  exact report_entry_of_analysis hE hwf hH h hq hx this
 
 end Trees
 
@@ -1065,9 +1189,10 @@ theorem exTree_ok : TreeOk exTree where
 
 /-- hence everything proved above applies to the example; e.g. its bytes are valid JSON with the
 value of `exReport`, and the file is an admissible cache for any later scan -/
-example : Json.parseJson exBytes = some (Json.toJson exReport) ∧ CacheOk exE (some exBytes) :=
-  ⟨(scan_writes_valid_json exE_ok exR_ok exTree_ok .missing ex_scan).1,
-   (scan_output_is_next_cache exE_ok exR_ok exTree_ok .missing ex_scan).2⟩
+example : Json.parseJson exBytes = some (Json.toJson exReport) ∧ CacheOkOn exE (fun _ => True) (some exBytes) :=
+  ⟨(scan_writes_valid_json exE_ok.toEnvBase exR_ok exTree_ok (.fresh ..) ex_scan).1,
+   (scan_output_is_next_cache exE_ok.toEnvBase exR_ok exTree_ok (.fresh ..) ex_scan).2 _
+     (fun _ _ _ _ => trivial) .missing⟩
 
 /-! ### a second scan, after an edit, from the cache the first scan wrote -/
 
@@ -1083,7 +1208,9 @@ def exTree2 : List Sel.Node :=
 returns what a scan without cache returns -/
 example (p : Str) (hp : p <+: exBytes) :
     scan exE exR (.dir [] exTree2) (some p) = scan exE exR (.dir [] exTree2) none :=
-  rescan_after_interrupted_write exE_ok exR_ok exTree_ok .missing ex_scan hp exR _
+  rescan_after_interrupted_write exE_ok.toEnvBase (U := fun _ => True) (fun _ _ _ _ he => exE_ok.md5 he)
+    exR_ok exTree_ok (fun _ _ _ _ => trivial) .missing ex_scan hp exR [] (by decide +kernel)
+    (fun _ _ _ _ => trivial)
 
 set_option maxRecDepth 20000 in
 /-- kernel evaluation of the instrumented cache model on the same input: the reader parses
@@ -1107,10 +1234,71 @@ example :
 
 /-- text that is not JSON is a harmless cache -/
 example : scan exE exR (.dir [] exTree) (some (cp! "<html>")) = .ok (exReport, exBytes) := by
-  rw [scan_with_cache_eq_fresh exE_ok (.foreign (foreign_of_not_json exE (by decide +kernel)))]
+  rw [scan_with_cache_eq_fresh exE_ok.toEnvBase exTree_ok.wf
+    (.of_injective exE_ok (.foreign (foreign_of_not_json exE (by decide +kernel))) _ _)]
   exact ex_scan
 
-/-! ### the hypothesis `CacheOk` is needed: a forged document of the current version -/
+/-! ### an environment whose checksum is NOT injective
+
+`exE2` is `exE` with a checksum that looks at the first byte only: it has collisions (`[1]` and
+`[1, 5]`), so `EnvOk exE2` is false - but no two contents that occur in the two example trees
+(`[1]`, `[2]`, `[3]`) collide, which is all `HistoryOk` asks for. -/
+
+def exE2 : Env := { exE with checksum := fun b => enc (b.take 1) }
+
+/-- the contents of the files the example scans read -/
+def exU (c : Str) : Prop := c = [1] ∨ c = [2] ∨ c = [3]
+
+instance : DecidablePred exU := fun c => by unfold exU; infer_instance
+
+theorem exE2_not_injective : ¬ Function.Injective exE2.checksum := by
+  intro h
+  have : ([1] : Str) = [1, 5] := h (by decide)
+  cases this
+
+theorem exE2_base : EnvBase exE2 where
+  lexer := ⟨exE_ok.lexer.tiles, exE_ok.lexer.nonempty⟩
+  decode := exE_ok.decode
+  checksum := by
+    intro b
+    apply goodStr_of_small
+    intro c hc
+    simp only [exE2, enc, List.mem_flatMap, List.mem_cons, List.mem_replicate] at hc
+    obtain ⟨n, _, rfl | ⟨_, rfl⟩⟩ := hc <;> omega
+  version := exE_ok.version
+
+theorem exE2_collisionFree : CollisionFree exE2 exU := by
+  intro c c' hc hc' h
+  rcases hc with rfl | rfl | rfl <;> rcases hc' with rfl | rfl | rfl <;>
+    first | rfl | (exfalso; revert h; decide)
+
+theorem exTree_in : ScannedIn exE2 exR.pats exTree exU := by
+  intro p c lang hsel
+  have h : ∀ x ∈ selection (oracles exE2 exR.pats) exTree, exU x.2.2 := by decide +kernel
+  exact h (p, lang, c) (mem_selection.2 hsel)
+
+theorem exTree2_in : ScannedIn exE2 exR.pats exTree2 exU := by
+  intro p c lang hsel
+  have h : ∀ x ∈ selection (oracles exE2 exR.pats) exTree2, exU x.2.2 := by decide +kernel
+  exact h (p, lang, c) (mem_selection.2 hsel)
+
+/-- **the theorems apply to the non-injective checksum**: whatever the first scan of `exTree` wrote
+(it did write something: `scan_never_raises`), a scan of the edited tree `exTree2` that starts from
+that file - complete or cut at any byte - returns what a scan without cache returns; and every
+report it can return satisfies the theorems above (here: `report_measurements_wf`) -/
+example : ∃ d bytes, scan exE2 exR (.dir [] exTree) none = .ok (d, bytes) ∧
+    ∀ p, p <+: bytes →
+      scan exE2 exR (.dir [] exTree2) (some p) = scan exE2 exR (.dir [] exTree2) none ∧
+      HistoryOk exE2 exR.pats exTree2 (some p) := by
+  obtain ⟨d, bytes, h⟩ := scan_never_raises exE2 exR [] exTree_ok.wf none
+  refine ⟨d, bytes, h, fun p hp => ⟨?_, ?_⟩⟩
+  · exact rescan_after_interrupted_write exE2_base exE2_collisionFree exR_ok exTree_ok
+      exTree_in .missing h hp exR [] (by decide +kernel) exTree2_in
+  · exact Or.inr ⟨exU, exE2_collisionFree, exTree2_in,
+      .cut .missing exR_ok exTree_ok exTree_in h hp⟩
+
+/-! ### the restriction of `HistoryOk` to honest cache files (`CacheOkOn`) is needed: a forged document of the
+current version -/
 
 /-- `exBytes` with the length of `f` in `main.c` changed from 8 to 80 (checksums untouched) -/
 def exForged : Str := cp! "{
@@ -1182,7 +1370,7 @@ def exForged : Str := cp! "{
 "
 
 set_option maxRecDepth 20000 in
-/-- **without `CacheOk` the statement "a scan with a cache equals a fresh scan" is false**: the
+/-- **without `HistoryOk` the statement "a scan with a cache equals a fresh scan" is false**: the
 forged entry is reused (same path, same checksum), the report shows length 80 for `f`, counts one
 unmaintainable function, and keeps the cached line total 10 - so `loc` is no longer the sum of the
 lengths either.  The real `scan_command` does exactly the same on the same directory with the same
@@ -1213,7 +1401,7 @@ example : ∃ co, check exE exR.pats (.dir [] exTree) [] [.relDir []] true = .ok
     co.files.map (fun x => joinPath x.1.comps) = [cp! "main.c", cp! "src/util.py"] ∧
     co.out.listed = [[], []] ∧ co.out.exitCode = 0 ∧ co.out.printed = false := by
   obtain ⟨co, h1, h2, h3, h4, h5, _, h7⟩ :=
-    check_root_agrees_with_report exE_ok exTree_ok.wf .missing ex_scan (.relDir []) (Or.inl rfl) true
+    check_root_agrees_with_report exE_ok.toEnvBase exTree_ok.wf (.fresh ..) ex_scan (.relDir []) (Or.inl rfl) true
   have hnone : ∀ kv ∈ exReport.files, ∀ m ∈ kv.2.measurements, ¬ 30 < m.value := by decide +kernel
   have hr : ∀ kv ∈ exReport.files, risksJ kv.2.measurements = [] := by
     intro kv hkv
@@ -1252,7 +1440,7 @@ theorem util_qualifies : C11pat.Qualifies exR.pats (langOf exE) exTree [cp! "src
 /-- the hypotheses of `report_entry_of_canon_tree` hold for `main.c` (language C, forest
 `cppTree`), and the entry it predicts is the entry the kernel evaluation found -/
 example : (cp! "main.c", entryFor exE [1] ("C", Gen.c) (TreeOps.reportOf Gen.c cppTree)) ∈ exReport.files :=
-  (report_entry_of_canon_tree exE_ok exTree_ok.wf .missing ex_scan main_qualifies (x := ("C", Gen.c)) rfl
+  (report_entry_of_canon_tree exE_ok.toEnvBase exTree_ok.wf (.fresh ..) ex_scan main_qualifies (x := ("C", Gen.c)) rfl
     (by simp [C01syn.cFamily]) (prog := cppTree) rfl (by decide +kernel) C01full.Ex.cppTree_canon
     cpp_wf.1 cpp_wf.2.1 cpp_wf.2.2 cpp_spaced).1
 
@@ -1260,7 +1448,7 @@ example : (cp! "main.c", entryFor exE [1] ("C", Gen.c) (TreeOps.reportOf Gen.c c
 `Props/C01pyfull.lean`) -/
 example : (cp! "src/util.py", entryFor exE [2] ("Python", Gen.python) (pyTreeReport tree.located))
     ∈ exReport.files :=
-  (report_entry_of_pytree exE_ok exTree_ok.wf .missing ex_scan util_qualifies rfl
+  (report_entry_of_pytree exE_ok.toEnvBase exTree_ok.wf (.fresh ..) ex_scan util_qualifies rfl
     (t := tree) (by decide +kernel) (by decide +kernel) tree_wf C01pytext.Ex.tree_spaced).1
 
 /-! ### exclusion lines -/
